@@ -115,10 +115,16 @@ class Lane(LaneBase):
         edges = [(NAMES[a], NAMES[b]) for a, b in case['edges']]
         g = gen.build_dag(n, case['edges'])
         sk = g.skeleton
+        from cai_causal_graph.identify_utils import identify_colliders as _ic
+        _nf = gen.nodeform_agree(g, names, [
+            ('identify_markov_boundary', lambda x, y: identify_markov_boundary(g, x)),
+            ('identify_markov_boundary(skeleton)', lambda x, y: identify_markov_boundary(g.skeleton, x)),
+            ('get_parents', lambda x, y: g.get_parents(x)), ('get_children', lambda x, y: g.get_children(x)),
+            ('get_neighbors', lambda x, y: g.get_neighbors(x))], key=('c20', n, tuple(map(tuple, case['edges']))))
         hn, he = hxlist(names), hxedges(edges)
         ht = hxtyped([(a, b, '->') for a, b in edges])
         bf = BF(names, edges)
-        lines, impl, oracle = [], [], []
+        lines, impl, oracle = [], [], list(_nf)
         nontrivial = False
         coparent = False
         for i, x in enumerate(names):
